@@ -879,6 +879,231 @@ def canonicalise_params(syn):
 
 
 
+
+# ------------------------------------------------------------------------------------------------------------------------
+# Logical re-spellings.  `a == b` and `b == a`, `if !c { A } else { B }` and `if c { B } else { A }`, `match o { Some(x) => A, None => B }`
+# and `if let Some(x) = o { A } else { B }`, `x.is_none()` and `!x.is_some()` are the same program.  So that a rule sees the same tree
+# for all of them, the facts are brought into one spelling on loading.  Every rewrite is an equivalence of *values*; the order in which
+# the operands of `&&` / `||` are evaluated is not kept (rules that care about effects inside conditions look at MIR).
+def _is_literalish(e):
+    e = strip(e)
+    if not isinstance(e, dict):
+        return False
+    k = e.get("k")
+    if k == "lit":
+        return True
+    if k == "path":
+        last = e["p"].split("::")[-1]
+        return last[:1].isupper() and (last.isupper() or "::" in e["p"] or last in ("None",))
+    if k == "call" and e["f"].get("k") == "path" and not e["args"]:
+        return True                                     # `Name::any()`, `TrueName::empty()`
+    if k == "struct":
+        return True                                     # `Core::Id { lit: .. }`
+    if k == "unary" and e.get("op") in ("*", "&", "-"):
+        return _is_literalish(e["e"])
+    if k == "ref":
+        return _is_literalish(e["e"])
+    return False
+
+
+_FLIP = {"<": ">", ">": "<", "<=": ">=", ">=": "<=", "==": "==", "!=": "!="}
+_NEG = {"==": "!=", "!=": "==", "<": ">=", ">=": "<", ">": "<=", "<=": ">"}
+_OPP_M = {"is_some": "is_none", "is_none": "is_some", "is_ok": "is_err", "is_err": "is_ok"}
+
+
+def _negate(e):
+    """the negation of a condition, pushed inwards one level where that is exact"""
+    e0 = e
+    while isinstance(e, dict) and e.get("k") == "paren":
+        e = e["e"]
+    if isinstance(e, dict):
+        if e.get("k") == "unary" and e.get("op") == "!":
+            return e["e"]
+        if e.get("k") == "binary" and e["op"] in ("==", "!="):
+            return dict(e, op=_NEG[e["op"]])
+        if e.get("k") == "mcall" and e["m"] in _OPP_M and not e["args"]:
+            return dict(e, m=_OPP_M[e["m"]])
+    return {"k": "unary", "op": "!", "e": e0, "ln": (e0 or {}).get("ln", 0) if isinstance(e0, dict) else 0}
+
+
+def _flat_chain(n, op):
+    n2 = n
+    while isinstance(n2, dict) and n2.get("k") == "paren":
+        n2 = n2["e"]
+    if isinstance(n2, dict) and n2.get("k") == "binary" and n2["op"] == op:
+        return _flat_chain(n2["l"], op) + _flat_chain(n2["r"], op)
+    return [n]
+
+
+def _norm_node(n):
+    k = n.get("k")
+    if k == "binary":
+        op = n["op"]
+        # constants to the right of a comparison
+        if op in _FLIP and _is_literalish(n["l"]) and not _is_literalish(n["r"]):
+            n["l"], n["r"], n["op"] = n["r"], n["l"], _FLIP[op]
+            op = n["op"]
+        if op in ("+", "*") and isinstance(strip(n["l"]), dict) and strip(n["l"]).get("k") == "lit" and strip(n["l"]).get("t") == "int" and not _is_literalish(n["r"]):
+            n["l"], n["r"] = n["r"], n["l"]                                      # `1 + ind` is `ind + 1`
+        if op in ("&&", "||"):
+            # the operands of a conjunction / disjunction in the order of their text (the whole chain)
+            parts = _flat_chain(n, op)
+            key = [src(strip(p_)).replace(" ", "") for p_ in parts]
+            order = sorted(range(len(parts)), key=lambda i_: key[i_])
+            if order != list(range(len(parts))):
+                ps = [parts[i_] for i_ in order]
+                cur = ps[0]
+                for p_ in ps[1:]:
+                    cur = {"k": "binary", "op": op, "l": cur, "r": p_, "ln": n.get("ln", 0)}
+                n.clear()
+                n.update(cur)
+        elif op in ("==", "!=") and not _is_literalish(n["l"]) and not _is_literalish(n["r"]):
+            if src(strip(n["l"])).replace(" ", "") > src(strip(n["r"])).replace(" ", ""):
+                n["l"], n["r"] = n["r"], n["l"]
+        elif op in (">", ">="):
+            n["l"], n["r"], n["op"] = n["r"], n["l"], _FLIP[op]         # only `<` and `<=`
+    elif k == "unary" and n.get("op") == "!":
+        inner = n["e"]
+        while isinstance(inner, dict) and inner.get("k") == "paren":
+            inner = inner["e"]
+        if isinstance(inner, dict) and inner.get("k") == "binary" and inner["op"] in ("&&", "||"):
+            # De Morgan: the negation goes to the operands
+            parts = [_negate(p_) for p_ in _flat_chain(inner, inner["op"])]
+            op2 = "||" if inner["op"] == "&&" else "&&"
+            cur = parts[0]
+            for p_ in parts[1:]:
+                cur = {"k": "binary", "op": op2, "l": cur, "r": p_, "ln": n.get("ln", 0)}
+            n.clear()
+            n.update(cur)
+            for p_ in parts:
+                if isinstance(p_, dict) and p_.get("k") == "unary":
+                    _norm_node(p_)
+            _norm_node(n)
+            return
+        if isinstance(inner, dict) and ((inner.get("k") == "binary" and inner["op"] in ("==", "!=")) or
+                                        (inner.get("k") == "mcall" and inner["m"] in _OPP_M and not inner["args"]) or
+                                        (inner.get("k") == "unary" and inner.get("op") == "!")):
+            neg = _negate(inner)
+            n.clear()
+            n.update(neg)
+    elif k == "if" and n.get("else") is not None and isinstance(n.get("c"), dict) and n["c"].get("k") != "let":
+        c = n["c"]
+        while isinstance(c, dict) and c.get("k") == "paren":
+            c = c["e"]
+        neg_form = isinstance(c, dict) and ((c.get("k") == "unary" and c.get("op") == "!") or (c.get("k") == "binary" and c["op"] in ("!=", "<=")) or
+                                            (c.get("k") == "mcall" and c["m"] in ("is_none", "is_err") and not c["args"]))
+        els = n["else"]
+
+        def neg_atom(a_):
+            a_ = strip(a_)
+            while isinstance(a_, dict) and a_.get("k") == "paren":
+                a_ = strip(a_["e"])
+            return isinstance(a_, dict) and ((a_.get("k") == "unary" and a_.get("op") == "!") or (a_.get("k") == "binary" and a_["op"] == "!=") or
+                                             (a_.get("k") == "mcall" and a_["m"] in ("is_none", "is_err") and not a_["args"]))
+        if not neg_form and isinstance(c, dict) and c.get("k") == "binary" and c["op"] in ("&&", "||") and isinstance(els, dict) and els.get("k") == "block":
+            parts = _flat_chain(c, c["op"])
+            if len(parts) >= 2 and all(neg_atom(p_) for p_ in parts):
+                # a chain of negative conditions only: `!a && b != c` with an else is `a || b == c` with the branches swapped
+                op2 = "||" if c["op"] == "&&" else "&&"
+                cur = None
+                for p_ in parts:
+                    q_ = strip(p_)
+                    while isinstance(q_, dict) and q_.get("k") == "paren":
+                        q_ = strip(q_["e"])
+                    q_ = _negate(q_)
+                    cur = q_ if cur is None else {"k": "binary", "op": op2, "l": cur, "r": q_, "ln": n.get("ln", 0)}
+                _norm_node(cur)
+                n["c"] = cur
+                n["then"], n["else"] = els, n["then"]
+                return
+        if neg_form and isinstance(els, dict) and els.get("k") == "block":       # not an `else if` chain
+            if c.get("k") == "binary" and c["op"] == "<=":
+                n["c"] = dict(c, op="<", l=c["r"], r=c["l"])                      # !(a <= b)  =  b < a
+            else:
+                n["c"] = _negate(c)
+            n["then"], n["else"] = els, n["then"]
+    elif k == "mcall" and n["m"] == "to_string" and not n["args"] and isinstance(n.get("recv"), dict) and (
+            (n["recv"].get("k") == "lit" and n["recv"].get("t") == "str") or
+            (n["recv"].get("k") == "path" and n["recv"]["p"].split("::")[-1].isupper()) or
+            (n["recv"].get("k") == "mcall" and n["recv"]["m"] in ("trim", "trim_end", "trim_start", "as_str", "trim_matches", "trim_start_matches", "trim_end_matches"))):
+        # `x.to_string()` on a `&str` (a literal, a constant, the result of `trim..` / `as_str`) is `String::from(x)`
+        new = {"k": "call", "f": {"k": "path", "p": "String::from", "g": "", "ln": n.get("ln", 0)}, "args": [n["recv"]], "ln": n.get("ln", 0)}
+        n.clear()
+        n.update(new)
+    elif k == "match" and len(n.get("arms", [])) == 2 and all(a.get("guard") is None for a in n["arms"]) and \
+            all(isinstance(strip(a["body"]), dict) and strip(a["body"]).get("k") == "lit" and strip(a["body"]).get("t") == "bool" for a in n["arms"]) and \
+            n["arms"][1]["pat"].get("k") == "pwild" and strip(n["arms"][0]["body"]).get("v") in (True, "true") and strip(n["arms"][1]["body"]).get("v") in (False, "false") and \
+            ((n["arms"][0]["pat"].get("k") == "ptstruct" and n["arms"][0]["pat"].get("p") in ("Some", "Ok", "Err") and len(n["arms"][0]["pat"].get("elems", [])) == 1 and
+              n["arms"][0]["pat"]["elems"][0].get("k") == "pwild") or
+             (n["arms"][0]["pat"].get("k") in ("ppath", "pident") and (n["arms"][0]["pat"].get("p") or n["arms"][0]["pat"].get("name")) == "None")):
+        # `matches!(x, Some(_))` (expanded) is `x.is_some()`, `matches!(x, None)` is `x.is_none()`
+        p0 = n["arms"][0]["pat"]
+        m_ = {"Some": "is_some", "Ok": "is_ok", "Err": "is_err"}.get(p0.get("p"), "is_none") if p0.get("k") == "ptstruct" else "is_none"
+        recv = n["e"]
+        while isinstance(recv, dict) and recv.get("k") in ("ref", "paren"):
+            recv = recv["e"]
+        new = {"k": "mcall", "recv": recv, "m": m_, "args": [], "tf": "", "ln": n.get("ln", 0)}
+        n.clear()
+        n.update(new)
+    elif k == "match" and len(n.get("arms", [])) == 2 and all(a.get("guard") is None for a in n["arms"]):
+        a0, a1 = n["arms"]
+        def is_some(p):
+            # `Some(<binding>)` only: `Some('=')` with `_` is a test for one value, not the Some/None alternative
+            return p.get("k") == "ptstruct" and p.get("p") in ("Some", "Option::Some", "Ok", "Result::Ok") and len(p.get("elems", [])) == 1 and \
+                all(q.get("k") in ("pident", "pwild", "ptuple", "pref") for q in walk(p["elems"][0]) if isinstance(q, dict) and q.get("k", "").startswith("p"))
+        def is_none(p):
+            return (p.get("k") in ("ppath", "pident") and (p.get("p") or p.get("name")) in ("None", "Option::None")) or p.get("k") == "pwild" or \
+                (p.get("k") == "ptstruct" and p.get("p") in ("Err", "Result::Err") and len(p.get("elems", [])) == 1 and p["elems"][0].get("k") == "pwild")
+        def is_true(p):
+            return p.get("k") == "plit" and p["e"].get("t") == "bool" and p["e"].get("v") in (True, "true")
+        def is_false(p):
+            return (p.get("k") == "plit" and p["e"].get("t") == "bool" and p["e"].get("v") in (False, "false")) or p.get("k") == "pwild"
+        def blk(b):
+            return b if isinstance(b, dict) and b.get("k") == "block" else {"k": "block", "stmts": [{"k": "expr", "e": b, "semi": False, "ln": (b or {}).get("ln", 0)}], "ln": (b or {}).get("ln", 0)}
+        some, none = (a0, a1) if is_some(a0["pat"]) and is_none(a1["pat"]) else ((a1, a0) if is_some(a1["pat"]) and is_none(a0["pat"]) and a0["pat"].get("k") != "pwild" else (None, None))
+        if some is not None:
+            new = {"k": "if", "c": {"k": "let", "pat": some["pat"], "e": n["e"], "ln": n.get("ln", 0)}, "then": blk(some["body"]), "else": blk(none["body"]), "ln": n.get("ln", 0)}
+            n.clear()
+            n.update(new)
+        else:
+            t, f = (a0, a1) if is_true(a0["pat"]) and is_false(a1["pat"]) else ((a1, a0) if is_true(a1["pat"]) and is_false(a0["pat"]) and a0["pat"].get("k") != "pwild" else (None, None))
+            if t is not None:
+                new = {"k": "if", "c": n["e"], "then": blk(t["body"]), "else": blk(f["body"]), "ln": n.get("ln", 0)}
+                n.clear()
+                n.update(new)
+
+
+
+def cond_atoms(e, op):
+    """the operands of a (possibly nested, parenthesised) `&&` / `||` chain as order-free keys: an equality is keyed by its two sides as a
+    set, anything else by its text - so that `a == b || c` and `c || b == a` give the same set"""
+    out = set()
+    for part in _flat_chain(strip(e), op):
+        q = strip(part)
+        while isinstance(q, dict) and q.get("k") == "paren":
+            q = strip(q["e"])
+        if isinstance(q, dict) and q.get("k") == "binary" and q["op"] in ("==", "!="):
+            out.add((q["op"], frozenset({src(strip(q["l"])).replace(" ", ""), src(strip(q["r"])).replace(" ", "")})))
+        else:
+            out.add(src(q).replace(" ", ""))
+    return out
+
+def normalise_logic(syn):
+    """bring the bodies of all functions into one spelling (see above); -> number of nodes rewritten"""
+    if os.environ.get("VERIF_NO_NORMALISE"):
+        return 0
+    cnt = 0
+    for f in syn.fns:
+        if not f.get("body"):
+            continue
+        nodes = list(walk(f["body"]))
+        for n in reversed(nodes):           # children before parents
+            before = (n.get("k"), n.get("op"), id(n.get("l")), id(n.get("then")), n.get("m"))
+            _norm_node(n)
+            if before != (n.get("k"), n.get("op"), id(n.get("l")), id(n.get("then")), n.get("m")):
+                cnt += 1
+    return cnt
+
 class Syn:
     def __init__(self, path):
         with open(path) as fh:
@@ -890,6 +1115,7 @@ class Syn:
         self.impls = []
         self._index(self.root["items"], None)
         self.renamed_params = canonicalise_params(self)
+        self.normalised_nodes = normalise_logic(self)
 
     def _index(self, items, impl):
         for it in items:
@@ -1796,8 +2022,9 @@ def inline_lets(node, typed=False):
             out = []
             for st in n["stmts"]:
                 pat_ = st.get("pat") if st.get("k") == "local" else None
-                if typed and pat_ is not None and pat_.get("k") == "ptype" and isinstance(pat_.get("p"), dict):
-                    pat_ = pat_["p"]     # `let x: T = e;` (on request only: annotated lets are mostly the named results rules look for)
+                if pat_ is not None and pat_.get("k") == "ptype" and isinstance(pat_.get("p"), dict) and \
+                        (typed or re.fullmatch(r"(usize|isize|[ui](8|16|32|64|128)|bool|char|f32|f64)", str(pat_.get("ty", "")).strip())):
+                    pat_ = pat_["p"]     # `let x: T = e;` (on request, or for a scalar type: other annotated lets are mostly the named results rules look for)
                 if st.get("k") == "local" and st.get("init") is not None and st.get("else") is None and pat_.get("k") == "pident" \
                         and not pat_.get("mut") and not pat_.get("ref") and pat_.get("sub") is None \
                         and not (st["init"].get("k") == "ref" and st["init"].get("mut")):    # `let x = &mut T::new();` names an object, not a value
